@@ -81,7 +81,13 @@ class C12(Prop):
         infl = os.path.join(ctx.workdir, "c12_inflight.json")
         if os.path.exists(infl):
             os.remove(infl)
+        # the thorough tier runs ~1900 histories: minutes on an idle machine, far more under load
+        self.drivers[0]["timeout"] = 3600 if ctx.tier == "thorough" else 900
         cases, summaries, errors = super().run_drivers(ctx, n, seed, replay)
+        timed_out = any("test timed out" in e or "TIMEOUT after" in e for e in errors)
+        if os.path.exists(infl) and timed_out:
+            # killed by the test time limit, not by the server: a driver failure (reported as such), not a crash
+            os.remove(infl)
         if os.path.exists(infl):
             try:
                 d = json.load(open(infl))
